@@ -36,6 +36,7 @@ type Profile struct {
 	HotBias      int // percent chance that a path is taken from the hot set
 	ReusePct     int // percent chance that a sub-expression is reused verbatim
 	WriteOtherFact int // percent chance that assignment targets avoid fact G (C13)
+	TemplatePct    int // percent chance that a directed template is added
 }
 
 // DefaultProfile is the general-purpose Sim E profile.
@@ -47,7 +48,7 @@ func DefaultProfile() Profile {
 		MaxCycles: []uint64{0, 1, 2, 3, 5, 8, 12},
 		Listeners: []int{1, 1, 1, 2, 3, 0},
 		Sources:   []string{"direct", "direct", "grb", "reclone"},
-		RetErrPct: 20, Mode: "execute", HotBias: 65, ReusePct: 30,
+		RetErrPct: 20, Mode: "execute", HotBias: 65, ReusePct: 30, TemplatePct: 40,
 	}
 }
 
@@ -73,6 +74,7 @@ type G struct {
 	names []string
 	newKeys bool
 	usedCounted map[string]bool
+	mutN int
 }
 
 func lit(i int64) *grl.Expr { return grl.LitInt(i) }
@@ -509,7 +511,29 @@ func (g *G) Program() *grl.Program {
 		for j := 0; j < na; j++ {
 			r.Then = append(r.Then, g.action(r))
 		}
-		if g.R.Chance(g.Prof.PSelfRetract, 100) {
+		if g.R.Chance(g.Prof.PNatural, 100) {
+			// a natural action fault somewhere in the list
+			at := g.R.Intn(len(r.Then) + 1)
+			r.Then = append(r.Then[:at], append([]*grl.Action{g.naturalAction()}, r.Then[at:]...)...)
+		}
+		if g.R.Chance(g.Prof.PMutator, 100) {
+			// documented protocol: a mutator call is announced with Changed/Forget in the same list,
+			// has a call text unique in the rule set, and the rule retracts itself (R2, R3)
+			f := g.R.PickStr("F", "G")
+			g.mutN++
+			switch g.R.Intn(3) {
+			case 0:
+				r.Then = append(r.Then, &grl.Action{K: "mut", E: &grl.Expr{K: "call", Path: grl.P(f), Fn: "SetI", Args: []*grl.Expr{lit(int64(100 + g.mutN))}}},
+					&grl.Action{K: g.R.PickStr("changed", "forget"), Text: f + ".I"})
+			case 1:
+				r.Then = append(r.Then, &grl.Action{K: "mut", E: &grl.Expr{K: "call", Path: grl.P(f), Fn: "Bump", Args: []*grl.Expr{lit(int64(20 + g.mutN))}}},
+					&grl.Action{K: g.R.PickStr("changed", "forget"), Text: f + ".I"})
+			default:
+				r.Then = append(r.Then, &grl.Action{K: "mut", E: &grl.Expr{K: "call", Path: grl.P(f), Fn: "SetS", Args: []*grl.Expr{grl.LitStr(fmt.Sprintf("m%d", g.mutN))}}},
+					&grl.Action{K: g.R.PickStr("changed", "forget"), Text: f + ".S"})
+			}
+			r.Then = append(r.Then, &grl.Action{K: "retract", Name: r.Name})
+		} else if g.R.Chance(g.Prof.PSelfRetract, 100) {
 			r.Then = append(r.Then, &grl.Action{K: "retract", Name: r.Name})
 		}
 		p.Rules = append(p.Rules, r)
@@ -627,8 +651,22 @@ func Scenario(property string, seed uint64, prof Profile) *core.Scenario {
 	r := core.NewRand(seed)
 	g := &G{R: r, Prof: prof}
 	sc := &core.Scenario{Property: property, Sim: "E", Seed: seed}
+	useTemplate := r.Chance(prof.TemplatePct, 100)
+	if useTemplate && g.Prof.MaxRules > 3 {
+		g.Prof.MaxRules = 3
+	}
 	sc.Program = g.Program()
 	sc.Facts = g.Facts()
+	if useTemplate {
+		sc.Template = g.applyTemplate(property, sc.Program, sc.Facts)
+		// template rules are placed at a random position among the free-form ones
+		pm := r.Perm(len(sc.Program.Rules))
+		rules := make([]*grl.Rule, len(pm))
+		for i, j := range pm {
+			rules[i] = sc.Program.Rules[j]
+		}
+		sc.Program.Rules = rules
+	}
 	sc.Knobs = core.Knobs{
 		MaxCycle:  prof.MaxCycles[r.Intn(len(prof.MaxCycles))],
 		RetErr:    r.Chance(prof.RetErrPct, 100),
